@@ -52,3 +52,22 @@ def reset():
     gv.clean()
     warnings.resetwarnings()
     warnings.simplefilter("ignore")
+
+
+# custom attributes a user may keep in gv for their own use (documented **kargs of gv) whose NAMES coincide with parameters of the device
+# functions: a device called with its documented defaults must not pick them up
+SHADOW = dict(Vpi=3.3, BW=1.234e9, G=7.0, NF=9.0, r=0.2, T=77.0, M=8, n=2, bias=1.0, loss_dB=3.0, ER_dB=10.0, pol="y", R_load=7.0, Fn=3.0,
+              alpha=0.33, beta_2=5.0, beta_3=0.7, gamma=9.0, phi_max=0.5, length=3.0, D=123.0, Vout=2.0, pulse_shape="rz", include_noise="thermal-only",
+              i_dark=1e-6, lw=1e5, rin=-120.0, df=1e9, nslots=64, sps_resamp=16, otype="n", threshold=0.3, decision="soft")
+
+
+def shadow_gv():
+    """add the SHADOW attributes to gv, keeping every reserved value now in force"""
+    kw = dict(sps=gv.sps, R=gv.R, wavelength=gv.wavelength)
+    if gv.N is not None:
+        kw["N"] = gv.N
+    fs = gv.fs
+    gv(**kw, **SHADOW)
+    if gv.fs != fs:
+        gv(sps=gv.sps, fs=fs, wavelength=gv.wavelength, **({"N": gv.N} if gv.N is not None else {}), **SHADOW)
+    assert gv.fs == fs and gv.Vpi == 3.3
